@@ -196,20 +196,60 @@ class Dec:
 
 
 def run_case(prog, npat, lens, stats, classes=None):
-    """all paths of build_service_text on npat symbolic patterns with the given lengths"""
-    f = prog.find_fn('build_service_text')
-    work = [[]]
+    """all paths of build_service_text on npat symbolic patterns with the given lengths (parallel work units)"""
+    from . import parexplore
+    outs, npaths, steps, z3c = parexplore.run('mirsym.esccheck', 'c17_path', (npat, tuple(lens)), 'c17_summary', cut_at=8 if sum(lens) >= 3 else 6)
+    stats['paths'] += npaths
+    stats['mir_steps'] += steps
+    stats['z3_checks'] += z3c
     viols = []
-    while work:
-        d = work.pop()
-        it = Interp(prog, d)
-        pats = []
+    for kind, what, pats, q in outs:
+        stats['queries'] += q
+        if kind == 'viol':
+            viols.append((what, pats))
+        elif kind == 'panic':
+            viols.append(('panic: %s' % what, pats))
+        elif kind == 'unsupported':
+            raise Unsupported(what)
+    return viols
+
+
+def c17_path(it, npat, lens):
+    stats = {'queries': 0}
+    it._pats = []
+    it._q = stats
+    _c17_body(mapper.PROG, it, npat, lens, stats)
+    return None
+
+
+def c17_summary(it, res):
+    kind, payload = res
+    q = getattr(it, '_q', {'queries': 0})['queries']
+    if kind == 'ok':
+        return ('ok', None, None, q)
+    pats = getattr(it, '_pats', [])
+    if kind == 'viol':
+        mp = payload[1].get('model') if isinstance(payload[1], dict) else None
+        if mp is None:
+            mp = _model_pats(it, pats, None)
+        return ('viol', payload[0], mp, q)
+    if kind == 'panic':
+        return ('panic', payload, _model_pats(it, pats, None), q)
+    return (kind, payload, None, q)
+
+
+def _c17_body(prog, it, npat, lens, stats):
+    f = prog.find_fn('build_service_text')
+    if True:
+        if True:
+            pats = []
         for p in range(npat):
             cs = [z3.BitVec('c%d_%d' % (p, j), 32) for j in range(lens[p])]
             for c in cs:
                 it.assume(scalar(c))
             pats.append(cs)
-        try:
+        it._pats = pats
+        if True:
             arg = IterV('owned', [SStr(list(cs)) for cs in pats], 0)
             text = it.run(f, [arg])
             cs = chars_of(text)
@@ -259,18 +299,7 @@ def run_case(prog, npat, lens, stats, classes=None):
                     stats['queries'] += 1
                     if it.check_sat(xt != yt):
                         raise Violation('C17', 'an argument is not byte-for-byte what was given', {'arg': ai, 'model': _model_pats(it, pats, xt != yt)})
-        except Violation as v:
-            mp = v.ctx.get('model') if isinstance(v.ctx, dict) else None
-            if mp is None:
-                mp = _model_pats(it, pats, None)
-            viols.append((v.what, mp))
-        except Panic as e:
-            viols.append(('panic: %s' % e, _model_pats(it, pats, None)))
-        work.extend(it.new_branches)
-        stats['paths'] += 1
-        stats['mir_steps'] += it.steps
-        stats['z3_checks'] += it.stats['z3_checks']
-    return viols
+    return None
 
 
 def _model_pats(it, pats, extra):
